@@ -5,7 +5,7 @@ use wow_mpq::crypto::{
     decrypt_block, decrypt_dword, encrypt_block, hash_string, hash_type, het_hash, jenkins_hash, ASCII_TO_LOWER,
     ASCII_TO_UPPER, ENCRYPTION_TABLE,
 };
-use wow_mpq::{decrypt_file_data, ArchiveBuilder};
+use wow_mpq::{calculate_het_hashes, calculate_mpq_hashes, decrypt_file_data, ArchiveBuilder};
 
 fn w(v: u32) -> Value {
     json!([(v >> 16) as u32, v & 0xFFFF])
@@ -128,6 +128,11 @@ fn main() {
                     // the spellings the property names: upper, lower, flipped slashes
                     out.ev(hash_ev(&case, &s.to_ascii_uppercase()));
                     out.ev(hash_ev(&case, &s.to_ascii_lowercase().replace('\\', "/")));
+                    // the convenience wrappers of crypto/mod.rs must agree with the primitive hashes
+                    let (ha, hb, ho) = calculate_mpq_hashes(&s);
+                    let (hf, hn) = calculate_het_hashes(&s, 48);
+                    out.ev(json!({"ev":"Wrap","case":case,"b":s.as_bytes(),"a":w(ha),"bb":w(hb),"off":w(ho),
+                        "bits":48,"file":limbs64(hf),"name1":hn}));
                 }
             }
             "enc" => {
